@@ -1,11 +1,28 @@
 import SudsModel.Driver.Util
 import SudsModel.Driver.C19
 import SudsModel.Xml.MultiRef
+import SudsModel.Lemmas.MultiRef
 namespace Suds.Driver.C18
 open Lean Suds.Driver Suds.Xml Suds.Driver.C19
 
+/-- The writer of `outlined_body_decodes` applied to a body whose children are the inline content: the
+out-lined body, what the theorem says resolution gives back, and what the model's `process` makes of it. -/
+def outlineOp (j : Json) : Json :=
+  let body := elemOf (jget j "tree")
+  let ids := (jarr j "outlined").toList.filterMap asNat?
+  let S : Nat → Bool := fun i => ids.contains i
+  let key : Nat → String := fun i => "id" ++ toString i
+  let extra : Nat → List Attr := fun _ => if jbool j "marked" then [⟨some "soapenc", "root", "0"⟩] else []
+  let roots := body.kids
+  let out := body.setKids (outlineKids S key roots ++
+    (outlinedKids S roots).map (fun o => mkRef S key extra (1000 + o.id) o))
+  let expect := body.setKids (markedKids S extra roots)
+  Json.mkObj [("body", elemJson out), ("expected", elemJson expect),
+    ("processed", elemJson (processBody (jnat j "fuel") out []))]
+
 def handle : Handler := fun op j =>
   match op with
+  | "multiref.outline" => some (outlineOp j)
   | "multiref.process" => some (elemJson (processBody (jnat j "fuel") (elemOf (jget j "tree")) []))
   | _ => none
 
